@@ -49,3 +49,24 @@ def queries(tier):
                       '.*(esc2|CmpStream).*': 6 * L + 1, 'EscapeHTMLSpecialChars': L + 1, 'vf_buf.*': L + 1}
                 qs.append(Query('idem/%s/L%d' % (ch, L), H, 'h_idem', {'L': L, 'CHAR': ch}, bounds=bi, timeout=600, mem_gb=8))
     return qs
+
+
+# ---- routing clauses: every printing path of the REAL renderer goes through the escaper (C02 render family, real Value, symbolic leaf strings) ----
+import importlib.util as _ilu, os as _os, copy as _copy, json as _json
+_sp = _ilu.spec_from_file_location('spec_C02_for_C03', _os.path.join(_os.path.dirname(_os.path.abspath(__file__)), 'C02.py')); _c02 = _ilu.module_from_spec(_sp); _sp.loader.exec_module(_c02)
+_string_queries = queries
+META['functions'] = META['functions'] + ['routing: Template::Render with the real Value<char> on the C02 template family: {var:} value, {raw:} value, unresolved-tag echo, loop value, loop KEY, index path, super-variable phrase and sub-tags']
+META['bounds'] += (' || routing: concrete templates x concrete tree shapes, symbolic 2-unit leaf strings over every code unit: the rendered text equals the expansion in which every {var:} path is the ESCAPED leaf and every '
+                   '{raw:} path the raw leaf (so {var:} output contains no raw special), plus the same templates compiled with QENTEM_AUTO_ESCAPE_HTML=0 where {var:} must equal {raw:}')
+def queries(tier):
+    qs = _string_queries(tier)
+    route = ('var', 'var_raw', 'var_missing', 'loop_array', 'loop_obj', 'loop_key', 'index_path', 'svar', 'inline_if')
+    for q in _c02.queries('quick'):
+        nm = q.name.split('/')[1]
+        if q.name.startswith('render/') and nm in route:
+            q2 = _copy.copy(q); q2.name = 'routing/' + nm; qs.append(q2)
+    # auto-escape configured off: {var:} behaves like {raw:}
+    for nm, tpl, val, exp in (('var_raw', 'x{var:a}y{raw:b}z', 0, 'L("x"); R(0); L("y"); R(1); L("z")'), ('loop_array', '<loop value="v">[{var:v}]</loop>', 3, 'L("["); R(0); L("]["); R(1); L("]")')):
+        qs.append(Query('routing-off/%s' % nm, 'C02_render.cpp', 'h_render', {'TPL': _json.dumps(tpl), 'VAL': val, 'EXPECT': exp}, bounds=_c02.B(len(tpl)), default_unwind=5, default_rec=3,
+                        rec_bounds={'~Value': 2, 'render|evaluate|parseExpressions': 4}, timeout=600, mem_gb=14, cflags=['-DQENTEM_AUTO_ESCAPE_HTML=0']))
+    return qs
